@@ -12,7 +12,7 @@ import z3
 
 from pyvc.prop import Unit, Bounded
 from pyvc.values import strval, SV, STR, INT, BOOL, FRAC, OINT, TNT, TSeq, TEnum, term, is_sym, fresh, fresh_term, coerce
-from pyvc.execu import HObj, NTVal, LoopSpec, yield_slot, seq_of_items, PyRaise, SymIter
+from pyvc.execu import HObj, NTVal, LoopSpec, yield_slot, seq_of_items, PyRaise, SymIter, Unsupported
 from pyvc import heaps as H, models as M
 
 LEVEL = "other"
@@ -95,7 +95,7 @@ class UngroupItem(Unit):
         self.name = f"ungroup_notes[{item_kind}]"
         self.functions = (Q, Q + ".check_orphan")
         self.expected = ["ungroup_notes#loop2:inv-keep:yielded", "ungroup_notes#loop1:step:yielded", "ungroup_notes#loop1:step:pending",
-                         "ungroup_notes#loop3:inv-keep:yielded", "post:all-pending-tails-yielded"]
+                         "ungroup_notes#loop3:inv-keep:yielded", "post:all-pending-tails-yielded-in-order"]
 
     def run(self, ex):
         n, g = G()
@@ -136,7 +136,8 @@ class UngroupItem(Unit):
             e = fr.loop_entry[(Q, 3)]
             h0, y0 = e["pending_tails"].t, e["yielded"].t
             ex_.ghost["final"] = (h0, k)
-            return [("yielded", vals["yielded"].t == z3.Concat(y0, DRAINF()(h0, k))), ("pending", vals["pending_tails"].t == POPK()(h0, k))]
+            return [("yielded", vals["yielded"].t == z3.Concat(y0, DRAINF()(h0, k))), ("pending", vals["pending_tails"].t == POPK()(h0, k)),
+                    ("size", f["hsize"](vals["pending_tails"].t) == f["hsize"](h0) - k)]
 
         def final_using(ex_, fr, k, vals):
             e = fr.loop_entry[(Q, 3)]
@@ -183,9 +184,17 @@ class UngroupItem(Unit):
             else:
                 ex.prove("raises:only-OrphanedNoteException", False, f"raised {r!r}")
             return
-        h0, k = ex.ghost["final"]
-        ex.prove("post:all-pending-tails-yielded", H.F()["hsize"](POPK()(h0, k)) == 0,
-                 "after the last item every pending tail has been yielded")
+        # stated on the function's output, whatever the shape of the final stage: after the last row, the tails still
+        # pending come out completely and in position order
+        after_rows = ex.ghost.get(("loop_exit", (Q, 0)))
+        if after_rows is None:
+            raise Unsupported("ungroup_notes: no state recorded after the loop over the rows")
+        Y, Hh = after_rows["yielded"].t, after_rows["pending_tails"].t
+        from pyvc.execu import seq_of_items
+        out = seq_of_items(ex, r.items, TSeq(NT)).t
+        H.base_facts(ex, Hh)
+        ex.prove("post:all-pending-tails-yielded-in-order", out == z3.Concat(Y, DRAINF()(Hh, f["hsize"](Hh))),
+                 "after the last item every pending tail has been yielded, smallest position first")
 
 
     def replay(self, model, ob):
@@ -253,6 +262,23 @@ def expected_after_roundtrip(stream, include, same_beat, join, oh, ot, n, g):
     return [x for i, x in enumerate(out) if i not in drop]
 
 
+def pending_hold_streams():
+    """k = 3, 4 holds open at once on k columns (heads on one row, tails on k later rows in every order), with and
+    without a tap after the last tail: the streams that leave several tails pending at the end"""
+    import itertools
+    n, g = G()
+    from simfile.timing import Beat
+    T = n.NoteType
+    for k in (3, 4):
+        for perm in itertools.permutations(range(1, k + 1)):
+            for trailing in (False, True):
+                st = [n.Note(Beat(0), c, T.HOLD_HEAD if c % 2 == 0 else T.ROLL_HEAD, 0, None) for c in range(k)]
+                st += [n.Note(Beat(perm[c]), c, T.TAIL, 0, None) for c in range(k)]
+                if trailing:
+                    st.append(n.Note(Beat(k + 1), 0, T.TAP, 0, None))
+                yield sorted(st, key=lambda x: (x.beat, x.column))
+
+
 class Composition(Bounded):
     function = "simfile.notes.group.ungroup_notes o group_notes"
     PARTS = 6
@@ -264,6 +290,7 @@ class Composition(Bounded):
     def bound(self, tier):
         r = 3 if tier == "quick" else 4
         return (f"all single-player streams on 2 columns x {r} rows and on 3 columns x 2 rows, 5 cell kinds (tap, hold head, roll head, tail, mine; one head kind keysounded) "
+                f"plus 3 and 4 simultaneously open holds with their tails in every order (with / without a trailing tap) "
                 f"x 3 same-beat modes x join on/off x orphan policies {{keep, drop}}^2 x ungroup KEEP_ORPHAN")
 
     def run(self, tier, seed):
@@ -277,7 +304,7 @@ class Composition(Bounded):
         cases, failures = 0, []
         pols = (g.OrphanedNotes.KEEP_ORPHAN, g.OrphanedNotes.DROP_ORPHAN)
         import itertools as _it
-        for idx, stream in enumerate(_it.chain(grid_streams(2, rows, kinds), grid_streams(3, 2, kinds))):
+        for idx, stream in enumerate(_it.chain(grid_streams(2, rows, kinds), grid_streams(3, 2, kinds), pending_hold_streams())):
             if idx % self.PARTS != self.part:
                 continue
             for sb, join in itertools.product(g.SameBeatNotes, (False, True)):
@@ -308,6 +335,17 @@ def witness_search(tier, seed):
     n, g = G()
     from simfile.timing import Beat
     T = n.NoteType
+    import itertools
+    for k in (2, 3, 4):
+        for perm in itertools.permutations(range(1, k + 1)):
+            items = [g.NoteWithTail(Beat(0), c, T.HOLD_HEAD, Beat(perm[c]), 0, None) for c in range(k)]
+            exp = [n.Note(Beat(0), c, T.HOLD_HEAD, 0, None) for c in range(k)] + \
+                sorted(n.Note(Beat(perm[c]), c, T.TAIL, 0, None) for c in range(k))
+            for grouped in ([items], [[x] for x in items]):
+                got = list(g.ungroup_notes(grouped, orphaned_notes=g.OrphanedNotes.KEEP_ORPHAN))
+                if got != exp:
+                    return dict(input=dict(grouped=[[repr(x) for x in row] for row in grouped], option="KEEP_ORPHAN"),
+                                detail=f"got {got!r}; the statement prescribes {exp!r}")
     for ks in (None, 7):
         for opt in g.OrphanedNotes:
             item = g.NoteWithTail(Beat(1), 2, T.HOLD_HEAD, Beat(3), 1, ks)
